@@ -35,7 +35,12 @@ func TracingRoundTripper(transport http.RoundTripper, collector Collector) http.
 			builder.add(&RequestCanceled{})
 		}()
 		req = req.Clone(ctx)
-		req.Body = newRequestReader(req.Header, req.Body, true, builder)
+		if req.Body != nil {
+			// A nil body means the request has no body: there is nothing to
+			// trace, and wrapping it would hand the transport a non-nil body
+			// whose Read dereferences nil.
+			req.Body = newRequestReader(req.Header, req.Body, true, builder)
+		}
 		resp, err := transport.RoundTrip(req)
 		if err != nil {
 			builder.add(&ResponseError{Err: err})
